@@ -15,9 +15,13 @@ for d in "$VERIF"/seeded/$PAT/; do
   nomiri=1; tier=quick
   [ "$id" = "C19-E" ] && nomiri=""
   [ "$id" = "C19-P" ] && nomiri=""
+  [ "$id" = "C19-U" ] && nomiri=""
+  # C19-U: the agent volunteered a hook site inside the race window; the regression uses the
+  # variant without it
+  pf="$d/patch.diff"; [ -f "$d/patch-nohook.diff" ] && pf="$d/patch-nohook.diff"
   # C19-N is only visible to the large-Unicode-class Miri scenario of the thorough tier
   if [ "$id" = "C19-N" ]; then nomiri=""; tier=thorough; export VERIF_NO_ALT=1; else unset VERIF_NO_ALT; fi
-  out="$(VERIF_TIER="$tier" VERIF_MIRI_WORLDS="$([ "$id" = "C19-N" ] && echo 0 || echo "${VERIF_MIRI_WORLDS:-2}")" VERIF_NO_MIRI="$nomiri" VERIF_WORLDS="${VERIF_WORLDS:-240000}" "$VERIF/try_patch.sh" "$d/patch.diff" "$prop" 2>&1)"
+  out="$(VERIF_TIER="$tier" VERIF_MIRI_WORLDS="$([ "$id" = "C19-N" ] && echo 0 || echo "${VERIF_MIRI_WORLDS:-2}")" VERIF_NO_MIRI="$nomiri" VERIF_WORLDS="${VERIF_WORLDS:-240000}" "$VERIF/try_patch.sh" "$pf" "$prop" 2>&1)"
   if echo "$out" | grep -q "^VIOLATION property=$prop "; then
     res="DETECTED $(echo "$out" | grep -m1 'clause=' | sed 's/^ *//' | cut -c1-90)"
     [ -z "$(echo "$out" | grep -m1 'clause=')" ] && res="DETECTED (Miri stratum)"
